@@ -742,7 +742,28 @@ def sweep(fx, R):
                 if not (x.get('k') == 'If' and x.get('e') is None and any(isinstance(y, dict) and y.get('k') == 'Return' for y in walk(x.get('t')))):
                     continue
                 keys, flags = set(), set()
+                fuzzy_hit = None
                 for cj in conjuncts(x['c']):
+                    # tolerance comparison of the argument with a remembered member: |arg - key_| < tol in any spelling (abs, norm, squaredNorm, maxCoeff ...), isApprox(), near()
+                    fz = None
+                    cj0 = cj
+                    if cj0.get('k') == 'Bin' and cj0.get('op') in ('<', '<='):
+                        for d_ in walk(cj0['l']):
+                            if isinstance(d_, dict) and ((d_.get('k') == 'Bin' and d_.get('op') == '-') or (d_.get('k') == 'Op' and d_.get('op') == '-' and len(d_.get('args', [])) == 2)):
+                                sd = (d_['l'], d_['r']) if d_.get('k') == 'Bin' else tuple(d_['args'])
+                                mem_ = [base_member(s_) for s_ in sd if base_member(s_) is not None and base_member(s_).get('cls') == cls]
+                                par_ = any(isinstance(y, dict) and y.get('k') == 'Ref' and y.get('id') in pids for s_ in sd for y in walk(s_))
+                                if mem_ and par_:
+                                    fz = (mem_[0]['name'], 'within `%s` of' % pp(cj0['r'])[:40])
+                    elif cj0.get('k') == 'MCall' and cj0.get('m') in ('isApprox', 'isMuchSmallerThan') and cj0.get('args'):
+                        sd = (cj0['obj'], cj0['args'][0])
+                        mem_ = [base_member(s_) for s_ in sd if base_member(s_) is not None and base_member(s_).get('cls') == cls]
+                        if mem_ and any(isinstance(y, dict) and y.get('k') == 'Ref' and y.get('id') in pids for s_ in sd for y in walk(s_)):
+                            fz = (mem_[0]['name'], cj0['m'] + '() to')
+                    if fz:
+                        keys.add(fz[0])
+                        fuzzy_hit = fuzzy_hit or (fz[0], fz[1], cj0)
+                        continue
                     if cj.get('k') in ('Bin', 'Op') and cj.get('op') == '==':
                         sides = (cj['l'], cj['r']) if cj.get('k') == 'Bin' else tuple(cj.get('args', [])[:2])
                         mem = [y for s_ in sides for y in walk(s_) if isinstance(y, dict) and y.get('k') == 'Member' and y.get('field') and y.get('cls') == cls]
@@ -761,6 +782,13 @@ def sweep(fx, R):
                 if not (keys & names_) or len(names_) < 2:
                     continue
                 guard_members = names_ | keys | flags
+                if fuzzy_hit:
+                    others_ = sorted(names_ - keys - flags)
+                    R.violated('H5', '%s:fuzzy-key:%s' % (f['q'].split('(')[0], fuzzy_hit[0]), 'the remembered result (%s) is returned again whenever the argument is %s the remembered `%s` (`%s`): a tolerance '
+                               'comparison, not equality, so a DIFFERENT argument inside the tolerance is answered with the result computed for another one - the result depends on the call made before; for a map that '
+                               'must be inverted to the accuracy of the property (or whose tolerance is compared with another power of the distance than intended) the two points come back as one' % (
+                                   ', '.join(others_) or 'the stored result', fuzzy_hit[1], fuzzy_hit[0], pp(x['c'])[:100]), fx.rel(x.get('loc') or f['loc']), 'E-PURE')
+                    continue
                 for (bm, rhs) in st_:
                     if bm.get('cls') != cls or bm['name'] in keys or bm['name'] in flags:
                         continue
@@ -779,6 +807,54 @@ def sweep(fx, R):
                                    fx.rel(x.get('loc') or f['loc']), 'E-PURE')
                     elif deps:
                         R.holds('H5', inst, 'result remembered per argument; every method that writes what it is computed from (%s) also invalidates it' % ', '.join(sorted(deps)), fx.rel(x.get('loc') or f['loc']), 'E-PURE')
+    # ---- H14: same-value shortcut of a (re)configuring method -------------------------------------------------------------------
+    # `void setX(v) { if (x_ == v) return; x_ = v; a_ = f(v); b_ = g(v); }`: calling setX with the value it already has used to put a_, b_ back to their initial state for that value; with the
+    # shortcut it no longer does when ANOTHER method has changed a_ or b_ in between - the object then differs from a fresh one configured the same way
+    for f in sorted(fns, key=lambda f: f['q']):
+        cls = f.get('cls')
+        if not cls or f.get('ctor') or f.get('body') is None or not f.get('params') or f['body'].get('k') != 'Compound':
+            continue
+        if (f.get('ret') or {}).get('s', 'void') != 'void':
+            continue
+        pids = {p_['id'] for p_ in f['params']}
+        top = f['body']['s']
+        for i_, x in enumerate(top):
+            if x.get('k') in ('Expr',) and not stores_in(x):
+                continue                                 # asserts and the like
+            if not (x.get('k') == 'If' and x.get('e') is None and any(isinstance(y, dict) and y.get('k') == 'Return' for y in walk(x.get('t'))) and not stores_in(x.get('t'))):
+                break
+            keys = set()
+            for cj in conjuncts(x['c']):
+                if cj.get('k') in ('Bin', 'Op') and cj.get('op') == '==':
+                    sides = (cj['l'], cj['r']) if cj.get('k') == 'Bin' else tuple(cj.get('args', [])[:2])
+                    mem = [base_member(s_) for s_ in sides if base_member(s_) is not None and base_member(s_).get('cls') == cls]
+                    par = any(isinstance(y, dict) and y.get('k') == 'Ref' and y.get('id') in pids for s_ in sides for y in walk(s_))
+                    if mem and par:
+                        keys.add(mem[0]['name'])
+            if not keys:
+                break
+            rest = {'k': 'Compound', 's': top[i_ + 1:]}
+            st_ = stores_in(rest)
+            written = {bm['name'] for (bm, _) in st_ if bm.get('cls') == cls}
+            if not (keys & written):
+                break
+            foreign = {}
+            for nm_ in sorted(written - keys):
+                ws = sorted(w_ for w_ in all_writers.get((cls, nm_), ()) if w_ != f['q'])
+                if ws:
+                    foreign[nm_] = ws
+            inst = '%s:same-value-shortcut' % f['q'].split('(')[0]
+            if foreign:
+                nm_ = sorted(foreign)[0]
+                R.violated('H14', inst, '%s() returns at once when its argument equals the stored `%s` (`%s`); past that test it also re-initialises %s, which other methods change (%s).  Calling it with the value it already has '
+                           'used to bring the object back to the state of a fresh one configured with that value; now what %s left behind stays - the next result depends on the calls made before this one, not on '
+                           'the configuration and the current problem alone' % (f['name'], ', '.join(sorted(keys)), pp(x['c'])[:80], ', '.join(sorted(foreign)),
+                                                                                '; '.join('%s: %s' % (k_, ', '.join(sorted({w_.split('(')[0].split('::')[-1] + '()' for w_ in v_})[:3])) for k_, v_ in sorted(foreign.items())[:3]),
+                                                                                foreign[nm_][0].split('(')[0].split('::')[-1] + '()'),
+                           fx.rel(x.get('loc') or f['loc']), 'E-STATE')
+            elif written - keys:
+                R.holds('H14', inst, 'same-value shortcut; everything re-initialised past it (%s) is written by no other method' % ', '.join(sorted(written - keys)), fx.rel(x.get('loc') or f['loc']), 'E-STATE')
+            break
     # ---- H2: single precision inside a double computation -----------------------------------------------------------------
     prec = PRECISION.get(getattr(R, 'prop', None))
     if prec is not None:
